@@ -187,32 +187,51 @@ def r4(cx):
     pv = Prov(m, "value")
     h = m.one("^" + re.escape(HOOK) + "$")
     revive = [c for c in h.calls() if c.q == T.Q_SET_STATE and pa.root(h, c.args[1])[0] == "agg" and pa.root(h, c.args[1])[2] == "Running"][0]
-    # the revival is reached from `c.on.is_none()` true, or from `err.ecode == c.on.unwrap()` true, and from nothing else
-    none_c = [c for c in h.calls() if re.search(r"Option::<T>::is_none$", c.q) and _field_of(h, pa, c.args[0]) == "on"]
-    eq_c = [c for c in h.calls() if re.search(r"PartialEq.*::eq$", c.q) and {_field_of(h, pv, a) for a in c.args} >= {"ecode"}]
-    ok_none = len(none_c) == 1
-    ok_eq = False
-    detail = {}
-    if len(eq_c) == 1:
-        flds = [_field_of(h, pv, a) for a in eq_c[0].args]
-        detail = {"compared": flds}
-        ok_eq = set(flds) == {"ecode", "on"}
-    cx.ob("C06.R4", "match:catch-all", ok_none, "a catch without `on` is recognised by `c.on.is_none()`", none_c[0].loc if none_c else h.loc())
-    cx.ob("C06.R4", "match:code", ok_eq, "otherwise the error's `ecode` is compared with the catch's `on`", eq_c[0].loc if eq_c else h.loc(), **detail)
-    if ok_none and ok_eq:
-        from vlib.model import bool_target
-        sw_none = _switch_of(h, none_c[0])
-        sw_eq = _switch_of(h, eq_c[0])
-        t_none = bool_target(h, sw_none, True)
-        t_eq = bool_target(h, sw_eq, True)
-        f_eq = bool_target(h, sw_eq, False)
-        reach_true = revive.b in h.reach_from([t_none]) and revive.b in h.reach_from([t_eq])
-        no_false = revive.b not in h.reach_from([f_eq], avoid=[sw_none])
-        only = revive.b not in h.reach_from([0], avoid=[t_none, t_eq])
-        # the eq test is evaluated only when `on` is Some
-        eq_after_none = bool_target(h, sw_none, False) in h.dom_chain(eq_c[0].b) or h.dominates(bool_target(h, sw_none, False), eq_c[0].b)
-        cx.ob("C06.R4", "match:polarity", reach_true and no_false and only and eq_after_none,
-              "the catch acts exactly on (`on` is none) or (`on` is some and equals the code); a non-matching catch does nothing", revive.loc)
+    # the revival is reached exactly when (`on` is none) or (the error's code equals `on`) - in any spelling: `c.on.is_none()
+    # || &err.ecode == c.on.as_ref().unwrap()`, a `match c.on { None => true, Some(on) => .. }`, `is_some_and`, ...
+    from vlib.ctrl import reach_table, bool_truth
+
+    def classify(r, neg, fn):
+        if r[0] == "call" and re.search(r"Option::<T>::(is_none|is_some)$", r[1]) and _field_of(fn, pa, Call(fn, r[2]).args[0]) == "on":
+            t = bool_truth(neg)
+            if r[1].endswith("is_some"):
+                t = {k: (not v) for k, v in t.items()}
+            return ("on_none", t)
+        if r[0] == "discr" and (r[2] or "").endswith("option::Option"):
+            inner = r[1]
+            fld = None
+            if inner[0] in ("param", "call", "local", "field"):
+                x = inner
+                n = 0
+                while x[0] == "call" and not x[3] and n < 4 and re.search(r"Option::<.*>::(as_ref|as_deref)$|Deref>::deref$", x[1]):
+                    x = pa.root(fn, Call(fn, x[2]).args[0])
+                    n += 1
+                fld = _root_field(x)
+            if fld == "on":
+                return ("on_none", {"0": True, "1": False, "otherwise": False})
+        if r[0] == "call" and re.search(r"PartialEq.*::(eq|ne)$", r[1]):
+            flds = {_field_of(fn, pv, a) for a in Call(fn, r[2]).args}
+            if flds == {"ecode", "on"}:
+                t = bool_truth(neg)
+                if r[1].endswith("::ne"):
+                    t = {k: (not v) for k, v in t.items()}
+                return ("code_eq", t)
+        return None
+
+    names, reach = reach_table(m, h, revive.b, classify)
+    want = set()
+    for on_none in (False, True):
+        for code_eq in (False, True):
+            if on_none or code_eq:
+                want.add((("code_eq", code_eq), ("on_none", on_none)))
+    ok_atoms = names == ["code_eq", "on_none"]
+    cx.ob("C06.R4", "match:catch-all", "on_none" in names, "the catch hook tests whether the catch has an `on` at all (a catch without `on` takes every error)", revive.loc)
+    cx.ob("C06.R4", "match:code", "code_eq" in names, "the error's `ecode` is compared with the catch's `on`", revive.loc, atoms=names)
+    if ok_atoms:
+        got = {tuple(sorted(x)) for x in reach}
+        cx.ob("C06.R4", "match:polarity", got == want,
+              "the catch acts exactly on (`on` is none) or (`on` equals the code); a non-matching catch does nothing%s" % (
+                  "" if got == want else " - but the revival is reachable under %s" % sorted(dict(x) for x in got)), revive.loc)
     # the catch steps scheduled are this catch's outputs
     sched = [c for c in h.calls() if c.q == T.Q_SCHED and any(g.root[0] == "discr" and g.root[1][0] == "param" and discr_variants(m, g) == {"Catch"} for g in guards_of(m, h, c.b, mode="alias"))]
     ok = False
@@ -231,13 +250,18 @@ def r4(cx):
 
 
 def _root_field(r):
+    """the last *named* field of a root's path (`(c.on as Some).0` is still `on`)"""
     if r[0] == "some":
         r = r[1]
+    fs = ()
     if r[0] in ("param", "call", "local"):
-        return r[3][-1] if r[3] else None
-    if r[0] == "field":
-        return r[2][-1] if r[2] else None
-    return None
+        fs = r[3]
+    elif r[0] == "upvar":
+        fs = r[2]
+    elif r[0] == "field":
+        fs = r[2]
+    fs = [x for x in fs if not (x.startswith("@") or x.isdigit() or x in ("*", "[]"))]
+    return fs[-1] if fs else None
 
 
 def _field_of(f, prov, op):
